@@ -1265,6 +1265,18 @@ def gen_simd_kernels(repo):
     sk = ' ; '.join('%s(%s)' % (c, ' '.join(a.split())) for c, a in calls if not c.startswith('_mm_set_epi8'))
     out += '/-- %s: horiz_convolution_four_rows: every intrinsic / helper call with its arguments, in textual order -/\n' % f
     out += 'def u8x4_sse4_four_rows_skeleton : String := "%s"\n\n' % sk.replace('"', '\\"')
+    # the vertical pass for 8-bit components (all four u8 pixel types)
+    f = 'src/convolution/vertical_u8/sse4.rs'
+    with open(os.path.join(repo, f)) as fh:
+        src = fh.read()
+    m = re.search(r'unsafe fn vert_convolution_into_one_row<T, const PRECISION: i32>\(.*?\n\}', src, re.S)
+    if not m:
+        raise TranslationError("%s: vert_convolution_into_one_row not found" % f)
+    body = re.sub(r'//[^\n]*', '', m.group(0))
+    calls = re.findall(r'\b(_mm_\w+(?:::<\w+>)?|simd_utils::\w+|chunks_exact_mut|chunks_exact|into_remainder|remainder|first|iter_2_rows|iter_rows|native::\w+)\(([^()]*(?:\([^()]*\)[^()]*)*)\)', body)
+    sk = ' ; '.join('%s(%s)' % (c, ' '.join(a.split())) for c, a in calls)
+    out += '/-- %s: vert_convolution_into_one_row: every intrinsic / helper call with its arguments, in textual order -/\n' % f
+    out += 'def vert_u8_sse4_skeleton : String := "%s"\n\n' % sk.replace('"', '\\"')
     return out
 
 def gen_sizes(repo):
